@@ -571,3 +571,7 @@ Definition runs (p : list opt) : list result := runs_from init 0 p.
 
 (* the first reading everywhere *)
 Definition run (p : list opt) : result := hd (0, [], []) (runs p).
+
+(* entry points of the extracted driver (distinctive names: the extraction is one flat file) *)
+Definition fmt_runs : list opt -> list result := runs.
+Definition fmt_parse_index : bytes -> option Z := parse_index.
